@@ -82,6 +82,7 @@ func (m *RWMutex) Unlock() {
 	m.wake()
 	m.mu.Unlock()
 	raceOn()
+	Point(unlockSite) // the goroutine may be descheduled right after it has released a lock
 }
 
 // RLock locks for reading.
@@ -139,6 +140,7 @@ func (m *RWMutex) RUnlock() {
 	}
 	m.mu.Unlock()
 	raceOn()
+	Point(unlockSite)
 }
 
 // RLocker returns a Locker whose Lock/Unlock are RLock/RUnlock.
